@@ -1,5 +1,24 @@
-/-- commonroad/planning/planning_problem.py: PlanningProblemSet.translate_rotate -/
-def PlanningProblemSet_translate_rotate (m : CR.Rigid.Mo) (l : List CR.Rigid.Problem) : Res (List CR.Rigid.Problem) := do
-  let mut l := l
-  l ← CR.PyC05.forEach (fun planning_problem => CR.Rigid.Problem.move m planning_problem) l
-  return l
+/-- commonroad/planning/planning_problem.py: PlanningProblemSet.translate_rotate — the body of its loop `for planning_problem in ...` on the reference view: `st` = the heap of referenced objects and the local lists of references -/
+def PlanningProblemSet_translate_rotate_loop1 (m : CR.Rigid.Mo) (st : List (List CR.Rigid.State) × List Nat) (planning_problem : CR.Rigid.State × Nat) : Res ((CR.Rigid.State × Nat) × (List (List CR.Rigid.State) × List Nat)) := do
+  let mut heap := st.1
+  let mut moved_goal_regions := st.2
+  let mut planning_problem_initial_state := planning_problem.1
+  if (moved_goal_regions.any (fun goal_region => decide (planning_problem.2 = goal_region))) then
+    planning_problem_initial_state := (← CR.Rigid.State.move m planning_problem_initial_state)
+  else
+    let o_1 ← CR.Rigid.Problem.move m (⟨planning_problem_initial_state, (CR.Rigid.goalAt heap planning_problem.2)⟩ : CR.Rigid.Problem)
+    planning_problem_initial_state := o_1.init
+    heap := heap.set planning_problem.2 o_1.goal
+    moved_goal_regions := moved_goal_regions ++ [planning_problem.2]
+  return ((planning_problem_initial_state, planning_problem.2), (heap, moved_goal_regions))
+
+/-- commonroad/planning/planning_problem.py: PlanningProblemSet.translate_rotate — on the reference view: `ps.goals` = the GoalRegion objects (an index is an identity), a problem = (initial state, index of the goal-region object it holds); `x.translate_rotate` on a problem = PlanningProblem.translate_rotate on the dereferenced record (model Problem.move, tied above), the moved goal region written back to the heap -/
+def PlanningProblemSet_translate_rotate (m : CR.Rigid.Mo) (ps : CR.Rigid.ProblemSet) : Res (CR.Rigid.ProblemSet) := do
+  let mut l := ps.problems
+  let heap := ps.goals
+  let moved_goal_regions : List Nat := []
+  let r_2 ← CR.PyC05.forEachS (PlanningProblemSet_translate_rotate_loop1 m) (heap, moved_goal_regions) l
+  l := r_2.1
+  let heap := r_2.2.1
+  let moved_goal_regions := r_2.2.2
+  return (⟨heap, l⟩ : CR.Rigid.ProblemSet)
